@@ -213,6 +213,11 @@ pub struct Tcb {
     pub snd_nxt: u32,
     /// Oldest unACK'd sequence number. `snd_nxt - snd_una` == in-flight.
     pub snd_una: u32,
+    /// Highest `snd_nxt` ever reached (RFC 793 SND.MAX). A go-back-N
+    /// rewind pulls `snd_nxt` back to `snd_una` but the peer may still
+    /// acknowledge everything sent before the rewind, so ACKs are
+    /// validated against `snd_max`, not `snd_nxt`.
+    pub snd_max: u32,
     /// Peer's last-advertised receive window, in bytes. Bounds how far
     /// beyond `snd_una` we're allowed to push `snd_nxt` before pausing.
     pub snd_wnd: u16,
